@@ -3,7 +3,7 @@ from __future__ import annotations
 
 from mc import spec as S, model as M, rp66 as R
 from mc.engine import Outcome, sha
-from mc.schema import DTYPE_SIZES
+from mc.schema import DTYPE_SIZES, norm_dtype
 
 ID = 'C03'
 ENGINE = 'E1 choice-point explorer: full product on the first channel, deviation-bounded elsewhere'
@@ -57,7 +57,9 @@ def _channel(ctx, i, dtype, src, rows, vrl, first):
     shape = ctx.choose(f'shape{i}', ['s', 'w1', 'w2', 'w3', 'wide'], free=first)
     layouts = ['C', 'F', 'strided', 'readonly', 'view'] if src in ('inline', 'dict') else ['C']
     layout = ctx.choose(f'layout{i}', layouts, free=first)
-    cast = ctx.choose(f'cast{i}', CASTS[dtype])
+    # the cast given at creation, assigned afterwards, or first another one at creation and then this one (one choice
+    # point, so that every combination is a single deviation from the default)
+    cast, cast_route = ctx.choose(f'cast{i}', [(None, 'kw')] + [(x, r) for x in CASTS[dtype][1:] for r in ('kw', 'later', 'replaced')])
     pal = ctx.choose(f'pal{i}', [0, 5, 11])
     size = DTYPE_SIZES[dtype]
     w = {'s': None, 'w1': 1, 'w2': 2, 'w3': 3, 'wide': (vrl - 8) // size + 1}[shape]
@@ -65,7 +67,7 @@ def _channel(ctx, i, dtype, src, rows, vrl, first):
     p = PAL[dtype]
     pat = [p[(pal + 3 * i + k) % len(p)] for k in range(n)]
     return {'dtype': dtype, 'bo': bo, 'shape': [rows] if w is None else [rows, w], 'pat': pat, 'layout': layout,
-            'cast': cast}
+            'cast': cast, 'cast_route': cast_route}
 
 
 # channel name x explicit data set name (None = chosen by the library: NAME, NAME__1, ...)
@@ -169,13 +171,18 @@ def make_spec(c):
     for i, ch in enumerate(c['chans']):
         arr = S.arr_spec(ch['dtype'], ch['shape'], ch['pat'], ch['bo'], ch['layout'])
         kw = {}
-        if ch['cast']:
+        route = ch.get('cast_route', 'kw')
+        if ch['cast'] and route == 'kw':
             kw['cast_dtype'] = {'$dtype': ch['cast']}
+        elif ch['cast'] and route == 'replaced':
+            kw['cast_dtype'] = {'$dtype': 'float32' if norm_dtype(ch['cast']) != 'float32' else 'float64'}
         if c['src'] == 'inline':
             kw['data'] = arr
         else:
             data[f'CH{i}'] = arr
         sp['ops'].append(S.op_add('channel', f'C{i}', f'CH{i}', **kw))
+        if ch['cast'] and route != 'kw':
+            sp['ops'].append({'op': 'cast', 'h': f'C{i}', 'value': {'$dtype': ch['cast']}})
         refs.append({'$ref': f'C{i}'})
     sp['ops'].append(S.op_add('frame', 'F0', 'FRAME', channels=refs))
     if c['src'] == 'dict':
